@@ -247,8 +247,19 @@ func VerifC06_Lifecycle() {
 	SetErrorReportingChannel(ch)
 	phase := rt.Choice("phase", 3)
 	kind := rt.Choice("panic", c06Kinds)
+	// the start routine may have launched a (healthy) worker before it panics:
+	// the worker ends when the failed start cancels the module's context
+	withWorker := phase == 1 && rt.Bool("start-routine-launched-a-worker")
+	workerEnded := make(chan struct{})
 	cb := func(p int) func() error {
 		return func() error {
+			if p == 1 && withWorker {
+				modules["m"].StartWorker("healthy", func(ctx context.Context) error {
+					<-ctx.Done()
+					close(workerEnded)
+					return nil
+				})
+			}
 			if p == phase {
 				c06Panic(kind)
 			}
@@ -285,6 +296,18 @@ func VerifC06_Lifecycle() {
 		shutdownFlag.Set()
 		_ = stopModules()
 		rt.Assert(m.Status() != StatusOnline, "lifecycle/not-online-after-failed-start-and-shutdown")
+		if withWorker {
+			// the failed start cancelled the module's context: the worker
+			// comes to its end (or this wait is reported as a deadlock), and
+			// its bookkeeping must not crash the process
+			<-workerEnded
+			for i := 0; i < 2; i++ {
+				y := make(chan struct{})
+				go func() { y <- struct{}{} }()
+				<-y
+			}
+			rt.Reach("lifecycle-worker-of-the-failed-start-ended")
+		}
 		rt.Reach("lifecycle-start")
 		return
 	}
